@@ -22,6 +22,9 @@ function programs (rng) {
     ['tpl', `function t${id} (a, b) {\n  let acc = \`\${a}:\${b()}\`\n  acc += a\n  return acc.concat(b(), 'x')\n}\nmodule.exports = t${id}\n`],
     ['optchain', `function o${id} (a) {\n  return a?.trim().substring(1)\n}\nexports.o = o${id}\n`],
     ['notmodified', `function n${id} (a) {\n  return a * 2 + 1 - a\n}\nmodule.exports = n${id}\nconst text = 'some-literal-text-${id}'\n`],
+    // the same text with one character changed (equal length): nothing to instrument / one operation
+    ['edit-minus', `function m${id} (a, b) {\n  return a - b\n}\nexports.m = m${id}\n`],
+    ['edit-plus', `function m${id} (a, b) {\n  return a + b\n}\nexports.m = m${id}\n`],
     ['literal-only', `function l${id} () {\n  return 'a' + 'b'\n}\nexports.l = l${id}\n`],
     ['syntax-error', `function s${id} (a) {\n  return a + ) \n}\n`],
     // a failing call whose diagnostic (file name + source excerpt) carries words that error-classifying code tends to look for
@@ -61,6 +64,7 @@ function runHistory (rng, tag) {
   const len = rng.range(8, 28)
   // few programs and few configurations per history, so that identical code meets different paths often
   const localProgs = rng.sample(progs, rng.range(2, 5))
+  for (const pair of [['edit-minus', 'edit-plus']]) { const has = pair.filter(k => localProgs.some(p => p[0] === k)); if (has.length === 1) localProgs.push(progs.find(p => p[0] === pair.find(k => k !== has[0]))) }
   const localCfgs = rng.sample(CONFIGS, rng.range(1, 2))
   for (let step = 0; step < len; step++) {
     const [kind, code] = rng.pick(localProgs)
